@@ -322,7 +322,7 @@ template<typename T> struct TdExec {
     T prevq = mn;
     for (int i = 0; i <= 128; i++) { const double r = static_cast<double>(i) / 128.0; const T q = s.get_quantile(r);
       ctx.require(q >= mn && q <= mx, fp("quantile-outside-min-max").c_str(), "rank " + hexd(r) + " gives " + hexd(q) + " not in [" + hexd(mn) + "," + hexd(mx) + "]");
-      ctx.require(q >= prevq, fp("quantile-not-monotone").c_str(), "rank " + hexd(r) + ": " + hexd(q) + " < " + hexd(prevq)); prevq = q; }
+      if (q < prevq) ctx.fail(fp(std::nextafter(q, std::numeric_limits<T>::infinity()) >= prevq ? "quantile-not-monotone-by-one-ulp" : "quantile-not-monotone"), "rank " + hexd(r) + ": " + hexd(q) + " < " + hexd(prevq)); prevq = q; }
     ctx.require(s.get_quantile(0) == mn && s.get_quantile(1) == mx, fp("extreme-quantiles").c_str(), "");
     if (sorted.size() >= 3) {
       std::vector<T> sp = { sorted[0], sorted[sorted.size() / 2], sorted.back() };
